@@ -88,6 +88,8 @@ class Driver:
         self.broker = Broker(record_action_callback=self._rec)
         self.market = AaveV3Market(MarketInfo("aave", MarketTypeEnum.aave_v3), uni.csv, tokens=list(uni.tok.values()))
         self.broker.add_market(self.market)
+        from demeter._typing import USD
+        self.broker.quote_token = USD
         for t in uni.tokens:
             self.broker.set_balance(uni.tok[t], dec(uni.w0[t]))
         self.row = 1
@@ -101,6 +103,13 @@ class Driver:
         ms, price = self.u.status(row)
         self.market.set_market_status(ms, price)
         self.row = row
+        self.prices = price.copy()
+        self.prices["USD"] = Decimal(1)
+
+    def account(self):
+        """the account's REPORTED valuation: (net value, wallet value, this market's net value)."""
+        a = self.broker.get_account_status(self.prices)
+        return frac(Decimal(a.net_value)), frac(Decimal(a.asset_value)), frac(Decimal(a.market_status[self.market.market_info].net_value))
 
     # ---- events -------------------------------------------------------------------------------
     def apply(self, ev):
@@ -476,8 +485,27 @@ def replay_path(uni: Universe, scn, steps, read_mode, tally, probes=None, probe_
             return [Mismatch("C10", "scenario_prefix", f"scenario prefix event {ev} raised {exc}")], -1
     for i, (ev, out, acts, st, view) in enumerate(steps):
         before = drv.snapshot()
+        nv0 = drv.account()[0]
+        px0 = drv.u.rows[drv.row - 1]["px"]
+        touched = before[0]
         o, exc, new = drv.apply(ev)
         mm = []
+        if ev["op"] in ("supply", "withdraw", "borrow", "repay", "setcoll"):
+            # C03: frozen market - no value creation beyond wallet dust; Aave operations conserve net value exactly up to dust
+            # (the reported Aave value is quantised to 1e-4 on supplies and debts: 2e-4 absolute)
+            tally("C03/aave_value_conserved")
+            nv1 = drv.account()[0]
+            wbal = dict(touched).get(ev.get("t"), Fraction(0))
+            dust = Fraction(1, 10 ** 5) * wbal * px0.get(ev.get("t"), Fraction(0)) + Fraction(2, 10 ** 4)
+            if nv1 - nv0 > dust:
+                mm.append(Mismatch("C03", "value_created", f"{ev['op']} {fmt_ev(ev)} ({o}) raised net value by {float(nv1 - nv0)!r} (dust {float(dust)!r})"))
+            elif ev["op"] != "setcoll" and abs(nv1 - nv0) > dust:
+                mm.append(Mismatch("C03", "value_not_conserved", f"{ev['op']} {fmt_ev(ev)} ({o}) changed net value by {float(nv1 - nv0)!r}"))
+            p_ = drv.project()
+            tally("C03/aave_non_negative")
+            neg = [k for k, v in list(p_["w"].items()) + list(p_["sb"].items()) + list(p_["bb"].items()) if v < 0]
+            if neg:
+                mm.append(Mismatch("C03", "negative_holding", f"after {ev['op']} {fmt_ev(ev)}: negative {neg}"))
         tally(f"{OUTCOME_OWNER[ev['op']]}/outcome")
         if o == "reject":
             tally("C04/reject_intact")
@@ -500,6 +528,19 @@ def replay_path(uni: Universe, scn, steps, read_mode, tally, probes=None, probe_
                 if read_mode != "all" and ev["op"] == "read":
                     subset = VIEW_GROUPS[ev["v"] % len(VIEW_GROUPS)::3]
                 mm += compare_views(drv, view, tally, subset)
+        if not mm:
+            # C01: the reported net value equals wallet x prices + (supplies - debts) valued by the specification
+            tally("C01/aave_net_value")
+            nv, av, mv = drv.account()
+            px = drv.u.rows[st["row"] - 1]["px"]
+            spec_av = sum((Q(st["w"][t]) * px[t] for t in drv.u.tokens), Fraction(0))
+            spec_mv = Q(view["bal_net_value"])
+            if not close(av, spec_av, REL, Fraction(0)):
+                mm.append(Mismatch("C01", "asset_value", f"asset_value code {float(av)!r} spec {float(spec_av)!r}"))
+            elif not close(mv, spec_mv, Fraction(0), ABS4 * 2):
+                mm.append(Mismatch("C01", "market_net_value", f"aave net_value code {float(mv)!r} spec {float(spec_mv)!r}"))
+            elif not close(nv, spec_av + spec_mv, REL, ABS4 * 2):
+                mm.append(Mismatch("C01", "net_value", f"account net_value code {float(nv)!r} spec {float(spec_av + spec_mv)!r}"))
         if probes is not None:
             if ev["op"] == "update" and o == "ok":
                 probes.extend(liq_probes(drv, i))
